@@ -31,12 +31,19 @@
   provably lies in the range of `Spec.render` and `assemble_image_render` (accepted programs) /
   `C04.accept_iff_wf_render` (both directions) applies to it.  A text outside the range turns the `S` answer into
   `outside-render-range` (programs that are not `Prog.renderable` are exempt).
+
+  Fourth computation (C17, ties `Spec.stmtTexts` to the assembler model's spans): for every text the
+  model accepts and whose layout has been read off and validated, the source sliced at the image's
+  statement spans must be the specification's statement texts (`Spec.stmtTexts L P`; theorem
+  `Lace.C17.span_text_eq_statement_render`).  A disagreement turns the `S` answer into
+  `stmt-text-mismatch`.
 -/
 import Driver.Proto
 import Driver.Asm
 import Lace.Spec.Prog
 import Lace.Spec.Render
 import Driver.Layout
+import Lace.Model.AsmSource
 open Lace Lace.Driver Lace.Asm
 
 namespace Lace.Driver.Enc
@@ -141,11 +148,28 @@ def renderCheck (flag : Bool) (P : Prog) : Option String :=
     if m == s then none else some ("spec-render-mismatch " ++ m ++ " ## " ++ s)
   else none
 
+/-- the validated layout of a text: `some L` only if `render L P = t` and `L.ok P` -/
+def layoutOf (P : Prog) (t : List Char) : Option Layout :=
+  let L := Lay.extract P t
+  if render L P == t && L.ok P then some L else none
+
 /-- every text of a renderable program — accepted or rejected by the specification — is `render L P`
 for a well-formed layout `L` -/
-def rangeCheck (_flag : Bool) (P : Prog) (texts : List (List Char)) : Option String :=
+def rangeCheck (_flag : Bool) (P : Prog) (lays : List (Option Layout)) : Option String :=
   if P.syntaxOk && P.renderable then
-    if texts.all (Lay.inRange P) then none else some "outside-render-range"
+    if lays.all Option.isSome then none else some "outside-render-range"
+  else none
+
+/-- C17: on an accepted text with a validated layout, the source sliced at the model's statement
+spans is `Spec.stmtTexts L P` -/
+def textCheck (P : Prog) (runs : List (List Char × Outcome × Option Layout)) : Option String :=
+  if P.syntaxOk && P.renderable then
+    if runs.all (fun (t, o, L) =>
+        match o, L with
+        | .ok img, some L =>
+          img.spans.map (fun p => Lace.Dbg.sliceBytes t p.1 p.2) == (stmtTexts L P).map some
+        | _, _ => true) then none
+    else some "stmt-text-mismatch"
   else none
 
 /-- `P01 stack text₁ text₂|= items…` -/
@@ -162,20 +186,22 @@ def handleP01 (toks : List String) : String :=
         items.mapM parseItem with
     | some so, some t1, some t2, some items =>
       let flag := so != 0
-      let m1 := canonOutcome (assemble flag [] t1).1
-      let m :=
-        match t2 with
-        | none => m1
-        | some t2 =>
-          let m2 := canonOutcome (assemble flag [] t2).1
-          if m1 == m2 then m1 else "layout-diff " ++ m1 ++ " ## " ++ m2
       let P : Prog := { items := items }
       let texts := t1 :: (match t2 with | some t => [t] | none => [])
+      let inDomain := P.syntaxOk && P.renderable
+      let runs := texts.map fun t =>
+        (t, (assemble flag [] t).1, if inDomain then layoutOf P t else none)
+      let m :=
+        match runs.map (fun r => canonOutcome r.2.1) with
+        | [m1, m2] => if m1 == m2 then m1 else "layout-diff " ++ m1 ++ " ## " ++ m2
+        | m1 :: _ => m1
+        | [] => "bad-request"
       "M " ++ m ++ " ;; S " ++
-        (match renderCheck flag P, rangeCheck flag P texts with
-         | some e, _ => e
-         | none, some e => e
-         | none, none => specOutcome flag P)
+        (match renderCheck flag P, rangeCheck flag P (runs.map (·.2.2)), textCheck P runs with
+         | some e, _, _ => e
+         | none, some e, _ => e
+         | none, none, some e => e
+         | none, none, none => specOutcome flag P)
     | _, _, _, _ => "bad-request"
   | _ => "bad-request"
 
